@@ -644,8 +644,11 @@ func (sh *SessionHandler) rpcWrite(s *session, log *zap.Logger) (contracts.Usage
 				return contracts.Usage{}, err
 			}
 
-			copy(sector[offset:], action.Data)
-			newRoot := rhp2.SectorRoot(sector)
+			// patch a copy: the buffer returned by ReadSector is shared with the
+			// sector cache and still belongs to the old root
+			updated := *sector
+			copy(updated[offset:], action.Data)
+			newRoot := rhp2.SectorRoot(&updated)
 
 			if err := contractUpdater.UpdateSector(newRoot, i); err != nil {
 				err := fmt.Errorf("update action: failed to update sector: %w", err)
@@ -653,7 +656,7 @@ func (sh *SessionHandler) rpcWrite(s *session, log *zap.Logger) (contracts.Usage
 				return contracts.Usage{}, err
 			}
 
-			if err = sh.sectors.Write(root, sector); err != nil {
+			if err = sh.sectors.Write(root, &updated); err != nil {
 				err := fmt.Errorf("append action: failed to write sector: %w", err)
 				s.t.WriteResponseErr(err)
 				return contracts.Usage{}, err
